@@ -49,8 +49,30 @@ def gen_scenario(rnd, i, stop):
             progs[p].insert(rnd.randrange(len(progs[p]) + 1), {"op": "shutdown"})
     elif stop == "dropproxy":
         dropproxy = True
-    return {"id": i, "seed": rnd.randrange(1 << 30), "msgs": msgs, "kinds": kinds, "progs": progs,
-            "dropproxy": dropproxy, "presend": [rnd.choice([0, 0, 1, m]) for m in msgs], "stop": stop}
+    sc = {"id": i, "seed": rnd.randrange(1 << 30), "msgs": msgs, "kinds": kinds, "progs": progs,
+          "dropproxy": dropproxy, "presend": [rnd.choice([0, 0, 1, m]) for m in msgs], "stop": stop}
+    if i % 4 == 3 and n >= 3:
+        # registration racing with traffic behind a slow handler: route 1 is a callback whose first call takes a while;
+        # meanwhile bursts arrive on installed routes and further routes are registered, so that the router's next
+        # batch holds many messages of several routes with a wake-up in between
+        sc["kinds"][0] = "cb"
+        sc["msgs"] = [rnd.choice([1, 2])] + [rnd.choice([12, 25, 40]) for _ in range(n - 1)]
+        sc["presend"] = [0] * n
+        sc["cbsleep"] = [rnd.choice([15000, 30000])] + [0] * (n - 1)
+        late = rnd.sample(range(2, n + 1), rnd.randrange(1, n - 1))
+        progs = [[] for _ in range(k)]
+        for r in range(1, n + 1):
+            if r not in late:
+                progs[rnd.randrange(k)].append({"op": "add", "r": r})
+        for r in late:
+            q = progs[rnd.randrange(k)]
+            q.append({"op": "sleep", "us": rnd.choice([2000, 5000, 9000])})
+            q.append({"op": "add", "r": r})
+        if stop == "shutdown":
+            progs[rnd.randrange(k)].append({"op": "shutdown"})
+        sc["progs"] = progs
+        sc["burst_after_us"] = 1500
+    return sc
 
 
 KEEP = {"h.scenario", "h.route", "h.add", "h.send", "h.sent", "h.senderdrop", "h.senderdropped", "h.dropproxy",
